@@ -41,6 +41,11 @@ fn main() {
             }
         };
         let prop = v["property"].as_str().unwrap_or("").to_string();
+        if v["build_profile"].as_str() == Some("release-defaults") && !engine::secondary_profile() && std::env::var("MC_CHILD").is_err() {
+            // found by the second pass: the first binary is not expected to reproduce it
+            println!("replay: property={} artefact of the release-defaults pass, not judged by this build", prop);
+            std::process::exit(0);
+        }
         if v["case"]["kind"].as_str() == Some("abort") {
             eprintln!("MACHINERY: this artefact records a process abort without a case; rerun `./check {} quick` to reproduce", prop);
             std::process::exit(2);
